@@ -32,6 +32,7 @@ class Contract:
         self.on_raise = _idlist(kw.pop("on_raise", []), "onraise")   # ensures on exceptional exits
         self.modifies = kw.pop("modifies", [])
         self.raise_dirty = kw.pop("raise_dirty", False)
+        self.mutates = kw.pop("mutates", [])         # parameters (library arrays) updated in place: `<name>__final` in ensures
         self.loops = kw.pop("loops", {})
         self.assumed = kw.pop("assumed", False)      # trusted: never verified, always listed
         self.inline = kw.pop("inline", False)
